@@ -115,6 +115,10 @@ func (s *unaryServer[RQ, RS]) fiberHandler(fCtx fiber.Ctx) error {
 		}),
 	)
 	setResponseCtx(fCtx, oMD)
+	// The context a middleware returns may still carry the request's params (a
+	// middleware that fails returns the context it received): the negotiated content
+	// type of the response is not theirs to overwrite.
+	fCtx.Set(fiber.HeaderContentType, encoder.ContentType())
 	fErr := errors.Encode(fCtx.RequestCtx(), err, false)
 	if fErr.Type == errors.TypeNil {
 		return encodeAndWrite(fCtx, encoder, res)
